@@ -21,3 +21,4 @@ PROP = {'engine': 'stack',
  'level_note': 'unkillable processes are not modelled; only two of the interleavings around expiry are hook-ordered, the rest is sampled by the '
                'delta sweep',
  'technique': 'property-based testing (rapid) + fault enumeration + hook-ordered schedules; history invariant with one-sided time bounds'}
+PROP['rule'] += ' Round-10 addition: in a quarter of the cases with extensions the extension files have dotted names (e1.sh, e2.tar.gz).'
